@@ -504,8 +504,16 @@ def gen_extreme_case(rng, cid, tier):
         x = rng.choice(dom); tot[s] += w; ops.append(items.update(s, x, w))
 
     queries(0)                                   # bounds of an empty sketch
-    plan = rng.choice(["fill", "fill", "split", "steps"])
-    if plan == "fill":
+    plan = rng.choice(["fill", "fill", "split", "steps"] + (["decay_edge", "decay_edge"] if unsigned else []))
+    if plan == "decay_edge":
+        # `c as f64` rounds above 2^53: decay(1.0) must not grow a counter (C17-countmin-decay-grows); afterwards the
+        # total still has exactly the room it had
+        w0 = rng.choice([mx - 1, mx - 1, mx, min(mx, 2**53 + 3), min(mx, 2**63 + 1025)])
+        upd(0, w0); queries(0)
+        ops.append((6, [0, f64bits(rng.choice([1.0, 1.0, 1.0 - 2**-53]))]))
+        tot[0] = min(tot[0], int(float(tot[0]) * (1.0 if ops[-1][1][1] == f64bits(1.0) else 1.0 - 2**-53)))
+        ops.append((8, [0])); upd(0, mx - tot[0] if rng.random() < 0.7 else min(1, mx - tot[0])); queries(0)
+    elif plan == "fill":
         upd(0, rng.choice([mx, mx, mx - 1, mx // 2 + 1]))          # one update up to T::MAX
     elif plan == "split":
         a = rng.randint(0, mx); upd(0, a); upd(1, mx - a)           # the merge below sums to exactly T::MAX
@@ -529,7 +537,8 @@ def gen_extreme_case(rng, cid, tier):
             d = rng.choice([f64bits(1.0), MIN_POS_F64, f64bits(0.5), f64bits(1.0 - 2**-53), f64bits(rng.random() or 1.0)])
             ops.append((6, [0, d]))
             # (c as f64 * d).trunc() as T, recomputed here for the total (Python's int -> float is correctly rounded)
-            tot[0] = min(mx, int(float(tot[0]) * struct.unpack("<d", struct.pack("<Q", d))[0]))
+            # and clamped to the old value (a decayed counter never grows)
+            tot[0] = min(tot[0], mx, int(float(tot[0]) * struct.unpack("<d", struct.pack("<Q", d))[0]))
         elif r < 0.7:
             ops.append((7, [0]))
         elif r < 0.8:
